@@ -385,15 +385,30 @@ class LayoutGen:
     def _gen_point(self, form):
         r = self.r
         eid = self.new_id()
+        # an additional shift given as attributes (dxy, or dx / dy individually)
+        extra, ax, ay, xf = [], F(0), F(0), []
+        if r.random() < 0.25:
+            ax, ay = self.g(-8, 8), self.g(-8, 8)
+            kk = r.random()
+            if kk < 0.4:
+                extra = [("dxy", "%s %s" % (fmt(ax), fmt(ay)))]
+            elif kk < 0.7:
+                extra = [("dx", fmt(ax)), ("dy", fmt(ay))]
+            elif kk < 0.85:
+                extra, ay = [("dx", fmt(ax))], F(0)
+            else:
+                extra, ax = [("dy", fmt(ay))], F(0)
+            xf = ["point.delta-attr"]
         if form == "abs" or r.random() < 0.3:
             x, y = self.g(), self.g()
-            return El(eid, "point", Box(x, y, x, y), [("xy", "%s %s" % (fmt(x), fmt(y)))], [], feats=["shape.point", "form.abs"])
+            return El(eid, "point", Box(x + ax, y + ay, x + ax, y + ay), [("xy", "%s %s" % (fmt(x), fmt(y)))] + extra, [], feats=["shape.point", "form.abs"] + xf)
         rt, re_ = self.pick_ref()
         ls = self.locspec()
         px, py = re_.box.point(ls)
         dtxt, dx, dy = self.delta_pair()
-        return El(eid, "point", Box(px + dx, py + dy, px + dx, py + dy), [("xy", "%s@%s%s" % (rt, locspec_text(ls), dtxt))], [re_.id],
-                  feats=["shape.point", "form.loc"])
+        px, py = px + dx + ax, py + dy + ay
+        return El(eid, "point", Box(px, py, px, py), [("xy", "%s@%s%s" % (rt, locspec_text(ls), dtxt))] + extra, [re_.id],
+                  feats=["shape.point", "form.loc"] + xf)
 
     def _gen_line(self, form):
         r = self.r
